@@ -1,7 +1,74 @@
 package main
 
-import "verif/xp"
+import (
+	"fmt"
+	"os"
+	"path/filepath"
+	"time"
 
-type srvH struct{}
+	"github.com/bbva/qed/crypto"
+	"github.com/bbva/qed/server"
 
-func (w *world) srvOp(r *xp.Req, resp *xp.Resp) { resp.Err = "server ops not built yet" }
+	"verif/xp"
+)
+
+type srvH struct {
+	srv *server.Server
+}
+
+// srvOp: srv-open starts a complete server.Server (API, mgmt, metrics, gossip
+// agent, sender, Raft) on the addresses given in r.Node.Seeds =
+// [http, mgmt, metrics, gossip] and r.Node.Addr (raft); srv-close stops it.
+func (w *world) srvOp(r *xp.Req, resp *xp.Resp) {
+	switch r.Op {
+	case "srv-open":
+		o := r.Node
+		os.MkdirAll(o.Dir, 0o755)
+		keyPath := filepath.Join(o.Dir, "keys")
+		priv := filepath.Join(keyPath, "qed_ed25519")
+		if _, err := os.Stat(priv); err != nil {
+			os.MkdirAll(keyPath, 0o755)
+			if _, _, err := crypto.NewEd25519SignerKeysFile(keyPath); err != nil {
+				resp.Err = "keys: " + err.Error()
+				return
+			}
+		}
+		conf := server.DefaultConfig()
+		conf.NodeID = o.ID
+		conf.HTTPAddr, conf.MgmtAddr, conf.MetricsAddr, conf.GossipAddr = o.Seeds[0], o.Seeds[1], o.Seeds[2], o.Seeds[3]
+		conf.RaftAddr = o.Addr
+		conf.DBPath = filepath.Join(o.Dir, "db")
+		conf.RaftPath = filepath.Join(o.Dir, "raft")
+		conf.PrivateKeyPath = priv
+		to := time.Duration(o.TimeoutMs) * time.Millisecond
+		conf.RaftHeartbeatTimeout, conf.RaftElectionTimeout, conf.RaftLeaseTimeout = to, to, to
+		s, err := server.NewServer(conf)
+		if err != nil {
+			resp.Err = "new server: " + err.Error()
+			return
+		}
+		if err := s.Start(); err != nil {
+			resp.Err = "start: " + err.Error()
+			return
+		}
+		w.srvs[r.Name] = &srvH{s}
+	case "srv-close":
+		h := w.srvs[r.Name]
+		if h == nil {
+			resp.Err = "no such server"
+			return
+		}
+		done := make(chan error, 1)
+		go func() { done <- h.srv.Stop() }()
+		select {
+		case err := <-done:
+			resp.Err = errStr(err)
+			delete(w.srvs, r.Name)
+		case <-time.After(30 * time.Second):
+			resp.Err = "Stop did not return within 30 s"
+			resp.ErrKind = "hang"
+		}
+	default:
+		resp.Err = fmt.Sprintf("unknown op %s", r.Op)
+	}
+}
